@@ -24,6 +24,10 @@ func (e *executor[R]) PreExecute(exec policy.ExecutionInternal[R]) *common.Polic
 				ExecutionAttempt: exec,
 			})
 		}
+		// If the execution was canceled while waiting, return the cancellation result rather than the context's error
+		if canceled, cancelResult := exec.IsCanceledWithResult(); canceled {
+			return cancelResult
+		}
 		return internal.FailureResult[R](err)
 	}
 	return nil
